@@ -1,6 +1,8 @@
 package main
 
 import (
+	ustringsC18 "github.com/ozanh/ugo/stdlib/strings"
+	"sort"
 	"bytes"
 	"encoding/hex"
 	"fmt"
@@ -150,5 +152,21 @@ func moduleMapStd() *ugo.ModuleMap {
 	mm := ugo.NewModuleMap()
 	mm.AddBuiltinModule("time", ugotime.Module)
 	mm.AddBuiltinModule("vmod", vmodAttrs())
+	mm.AddBuiltinModule("strings", ustringsC18.Module)
 	return mm
+}
+
+// (case id builtinnames) -> (names <hex>...): every name of ugo.BuiltinsMap (functions and the
+// error values alike), sorted
+func runBuiltinNames(args []*Sexp) *Sexp {
+	var names []string
+	for n := range ugo.BuiltinsMap {
+		names = append(names, n)
+	}
+	sort.Strings(names)
+	out := L(A("names"))
+	for _, n := range names {
+		out.List = append(out.List, hexAtom([]byte(n)))
+	}
+	return out
 }
